@@ -18,25 +18,25 @@ import Avfs.Conc.Lin
 namespace Avfs.Conc.Lin
 
 structure Dir where
-  entries : List (Nat × (Nat × Bool))    -- name ↦ (node, isDir)
+  entries : List (Bytes × (Nat × Bool))  -- name ↦ (node, isDir); names are entry names of the directory (byte strings)
   nlink : List (Nat × Int)               -- node ↦ link count
   next : Nat
   deriving DecidableEq, Repr
 
 inductive DOp
-  | mkdir (n : Nat)
-  | createExcl (n : Nat)
-  | remove (n : Nat)
+  | mkdir (n : Bytes)
+  | createExcl (n : Bytes)
+  | remove (n : Bytes)
   deriving DecidableEq, Repr
 
 inductive DRes | ok | eexist | enoent
   deriving DecidableEq, Repr
 
-def Dir.create (d : Dir) (n : Nat) (isDir : Bool) : Dir :=
+def Dir.create (d : Dir) (n : Bytes) (isDir : Bool) : Dir :=
   { entries := AL.insert n (d.next, isDir) d.entries, nlink := AL.insert d.next 1 d.nlink, next := d.next + 1 }
 
 /-- node.delete(): one link less -/
-def Dir.unlink (d : Dir) (n : Nat) (i : Nat) : Dir :=
+def Dir.unlink (d : Dir) (n : Bytes) (i : Nat) : Dir :=
   { d with entries := AL.erase n d.entries, nlink := AL.insert i (((AL.lookup i d.nlink).getD 0) - 1) d.nlink }
 
 /-- the sequential specification (what the call does when nothing else runs) -/
